@@ -151,6 +151,11 @@ func init() {
 			for i, k := 0, r.Intn(4); i < k; i++ {
 				emit(fmt.Sprintf("l.auth %s %s %s %s %d", hs(pick(r, pats)), hs(pick(r, pats)), hs(pick(r, pats)), hs(pick(r, []string{"", "pw", "*", "p*"})), r.Intn(2)))
 			}
+			overlap := r.Intn(3) == 0
+			if overlap { // a global rule for everyone whose filters overlap on a/b with different access: any order of evaluation must agree
+				emit(fmt.Sprintf("l.acl %s %s %s %s=%d,%s=%d,%s=%d", hs(pick(r, []string{"", "*", "c*"})), hs(""), hs(""),
+					hs("a/#"), r.Intn(4), hs("a/b"), r.Intn(4), hs("+/b"), r.Intn(4)))
+			}
 			for i, k := 0, r.Intn(4); i < k; i++ {
 				emit(fmt.Sprintf("l.acl %s %s %s %s", hs(pick(r, pats)), hs(pick(r, pats)), hs(pick(r, pats)), genFilters(r, pool)))
 			}
@@ -165,7 +170,11 @@ func init() {
 				case 2:
 					emit("l.rmatch " + hs(pick(r, pats)) + " " + hs(pick(r, []string{"c1", "c", "u1", "x", "", "127.0.0.1", "cx", "ax"})))
 				default:
-					emit(fmt.Sprintf("l.aclok %s %s %s %s %d", hs(id), hs(u), hs(rem), hs(genT(r, false)), r.Intn(2)))
+					topic := genT(r, false)
+					if overlap && r.Intn(2) == 0 {
+						topic = "a/b"
+					}
+					emit(fmt.Sprintf("l.aclok %s %s %s %s %d", hs(id), hs(u), hs(rem), hs(topic), r.Intn(2)))
 				}
 			}
 		}
